@@ -1,14 +1,14 @@
 #!/bin/bash
-# usage: seed_run.sh <seed dir name> -- apply /verif/seeded/<name>/patch.diff to /repo, run every claimed check, undo
+# usage: seed_run.sh <seed dir name> -- apply seeded/<name>/patch.diff to the repo, run every claimed check, undo
 N=$1
-cd /verif
-git -C /repo diff --quiet || { echo "/repo not clean"; exit 2; }
-git -C /repo apply /verif/seeded/$N/patch.diff || { echo "patch does not apply"; exit 2; }
+V="$(cd "$(dirname "$0")/.." && pwd)"
+R=${VERIF_REPO:-/repo}
+cd "$V"
+git -C "$R" diff --quiet || { echo "$R not clean"; exit 2; }
+git -C "$R" apply "$V/seeded/$N/patch.diff" || { echo "patch does not apply"; exit 2; }
 PROPS=$(python3 -c "import json;print(' '.join(c['property_id'] for c in json.load(open('MANIFEST.json'))['checks']))")
-OUT=""
 for p in $PROPS; do
-  R=$(./check $p quick 2>&1 | grep -E "^(VIOLATION|UNDECIDED)" | head -3 | cut -c1-220)
-  rc=$?
-  if [ -n "$R" ]; then echo "[$p] $R"; fi
+  R1=$(./check $p quick 2>&1 | grep -E "^(VIOLATION|UNDECIDED)" | head -3 | cut -c1-260)
+  if [ -n "$R1" ]; then echo "[$p] $R1"; fi
 done
-git -C /repo checkout -- .
+git -C "$R" checkout -- .
